@@ -79,13 +79,16 @@ def parseCalls (s : String) : Option (List (Int × Int × Int)) :=
 def runCtor (o : Org) (gran mode R : Int) (ctor : String) (W H A W2 H2 A2 : Int) (more : List (Int × Int × Int)) : Option St :=
   match ctor with
   | "d" | "f" => some (fresh o gran mode R W H A 0)
-  | "c" =>      -- copy constructor: dimensions and alignment of the source *as it is* (0 x 0 if it has no storage)
-    let s1 := fresh o gran mode R W H A 0; some (fresh o gran mode R s1.img.view.w s1.img.view.h s1.img.a s1.nalloc)
-  | "a" =>
+  | "c" =>      -- copy constructor (Model.C01.copyConstruct): dimensions and alignment of the source *as it is* (0 x 0 if it has no storage)
+    let s1 := fresh o gran mode R W H A 0
+    let img := copyConstruct o (fun n => allocAddr mode R n gran) s1.img
+    some { img := img, nalloc := if img.allocated = 0 then s1.nalloc else s1.nalloc + 1 }
+  | "a" =>      -- copy assignment (Model.C01.assign): copy_pixels into the existing storage, or image tmp(img); swap(tmp)
     let s1 := fresh o gran mode R W H A 0
     let s2 := fresh o gran mode R W2 H2 A2 s1.nalloc
-    if s1.img.view.w = s2.img.view.w ∧ s1.img.view.h = s2.img.view.h then some s2                       -- copy_pixels into the existing storage
-    else some (fresh o gran mode R s1.img.view.w s1.img.view.h s1.img.a s2.nalloc)         -- image tmp(img); swap(tmp)
+    let img := assign o (fun n => allocAddr mode R n gran) s2.img s1.img
+    let kept := GilVerif.Gen.C01.assign_branch s2.img.view.w s2.img.view.h s1.img.view.w s1.img.view.h 0 = 0
+    some { img := img, nalloc := if kept ∨ img.allocated = 0 then s2.nalloc else s2.nalloc + 1 }
   | "r" => some (recr o gran mode R (fresh o gran mode R W H A 0) ⟨.dims, W2, H2, A2, true⟩)
   | "q" =>
     let calls := (W2, H2, A2) :: more
